@@ -398,6 +398,27 @@ def setIndex : Val → List Val → Option Val → Out Val
           | some old => (setIndex old rest value).map fun nv => .dict ks (listSet vs k nv)
           | none => .throw
         | none => .throw
+    | .vector xs =>
+      -- `(Seq::Vector(v), Index(i)) if rest.is_empty()`: only a number may be stored
+      if !rest.isEmpty then .throw else
+      match value with
+      | none => .ok (.vector xs)
+      | some n =>
+        if isNum n then
+          match pyIndex xs.length i with
+          | some k => .ok (.vector (listSet xs k n))
+          | none => .throw
+        else .throw
+    | .bytes bs =>
+      -- `(Seq::Bytes(v), Index(i)) if rest.is_empty()`: an integer 0..255 (`to_u8`)
+      if !rest.isEmpty then .throw else
+      match value with
+      | none => .ok (.bytes bs)
+      | some (.int n) =>
+        (match pyIndex bs.length i with
+         | some k => if 0 ≤ n ∧ n < 256 then .ok (.bytes (listSet bs k n.toNat)) else .throw
+         | none => .throw)
+      | some _ => .throw
     | .str cs =>
       -- `(Seq::String(s), Index(i)) if rest.is_empty()`: one byte is overwritten by a one-byte
       -- string (modelled for ASCII strings; the differential run keeps history strings ASCII)
@@ -431,6 +452,33 @@ def getIndex : Val → List Val → Out Val
         | some x => getIndex x rest
         | none => .throw
       | none => .throw
+    | .vector xs =>
+      match pyIndex xs.length i with
+      | some k => match xs[k]? with
+        | some x => getIndex x rest
+        | none => .throw
+      | none => .throw
+    | .bytes bs =>
+      match pyIndex bs.length i with
+      | some k => match bs[k]? with
+        | some b => getIndex (.int b) rest
+        | none => .throw
+      | none => .throw
+    | .stream xs =>
+      match pyIndex xs.length i with
+      | some k => match xs[k]? with
+        | some x => getIndex x rest
+        | none => .throw
+      | none => .throw
+    | .str cs =>
+      -- byte-based (`weird_string_as_bytes_index`); modelled for ASCII strings
+      if cs.all (· < 128) then
+        match pyIndex cs.length i with
+        | some k => match cs[k]? with
+          | some c => getIndex (.str [c]) rest
+          | none => .throw
+        | none => .throw
+      else .throw
     | _ => .throw
 
 /-- `assign_respecting_type` (eval.rs ~2503): eager check when the index path is empty, late check
@@ -578,19 +626,45 @@ def unsnoc : Val → Out (Option (Val × Val))
   | .dict (k :: ks) (v :: vs) => .ok (some (.dict ks vs, .list [k, v]))
   | _ => .throw
 
-/-- `ncmp` (lib.rs ~308): numbers with numbers, strings with strings (other sequence kinds are
-not modelled); anything else raises -/
+mutual
+/-- `PartialOrd for Obj` / `for Seq` (core.rs ~1187): null with null, numbers with numbers, lists,
+strings, vectors and bytes with their own kind (lexicographically, stopping at the first pair that
+is not equal — or not comparable); everything else is incomparable -/
+def vcmp : Val → Val → Option Ordering
+  | .null, .null => some .eq
+  | .str x, .str y => some (compare x y)
+  | .bytes x, .bytes y => some (compare x y)
+  | .list xs, .list ys => vcmpList xs ys
+  | .vector xs, .vector ys => vcmpList xs ys
+  | a, b =>
+    match numReals a, numReals b with
+    | some (ra, ia), some (rb, ib) =>
+      (match XReal.cmp ra rb with
+       | some .eq => XReal.cmp ia ib
+       | r => r)
+    | _, _ => none
+def vcmpList : List Val → List Val → Option Ordering
+  | [], [] => some .eq
+  | [], _ :: _ => some .lt
+  | _ :: _, [] => some .gt
+  | a :: as, b :: bs =>
+    match vcmp a b with
+    | some .eq => vcmpList as bs
+    | r => r
+end
+
+def isSeqVal : Val → Bool
+  | .str _ | .list _ | .dict _ _ | .vector _ | .bytes _ | .stream _ | .streamInf => true
+  | _ => false
+
+/-- `ncmp` (lib.rs ~308): numbers with numbers, sequences with sequences; raises when the two are
+not comparable -/
 def ncmp (a b : Val) : Out Ordering :=
-  match numReals a, numReals b with
-  | some (ra, ia), some (rb, ib) =>
-    match XReal.cmp ra rb with
-    | some .eq => (match XReal.cmp ia ib with | some o => .ok o | none => .throw)
+  if (isNum a && isNum b) || (isSeqVal a && isSeqVal b) then
+    match vcmp a b with
     | some o => .ok o
     | none => .throw
-  | _, _ =>
-    match a, b with
-    | .str x, .str y => .ok (compare x y)
-    | _, _ => .throw
+  else .throw
 
 def CmpOp.accept (op : CmpOp) (a b : Val) : Out Bool :=
   match op with
